@@ -90,6 +90,17 @@ def regRows (s : St) (rows : List Row) : St :=
   let n := rows.length
   { s with dcs := (List.range n).zip rows |>.foldl (fun acc (i, r) => (s.nextObj + i, r.dc) :: acc) s.dcs, nextObj := s.nextObj + n }
 
+/-- `ring.addOrUpdate(h)` including `HostInfo.update` of the stored object's address fields; returns the stored object -/
+def addOrUpdateU (s : St) (h : RHost) : St × View × RHost :=
+  let (r, e) := s.v.ring.addOrUpdate h
+  let v1 := { s.v with ring := r }
+  if e.obj == h.obj then (s, v1, e) else
+  match lookup s.addrs e.obj, lookup s.addrs h.obj with
+  | some ae, some ah =>
+    let a' := ae.update ah
+    ({ s with addrs := (e.obj, a') :: erase s.addrs e.obj, objs := s.objs.map (setAC a'.nodeAddr a'.conn · e.obj) }, v1.updateObj e.obj a'.nodeAddr a'.conn, setAC a'.nodeAddr a'.conn e e.obj)
+  | _, _ => (s, v1, e)
+
 def resStr : RefreshResult → String
   | .ok => "ok" | .errCannotFind => "err:cannot-find-host" | .errAlreadyExists => "err:host-already-exists"
 
@@ -118,19 +129,14 @@ def step (s : St) (ws : List String) : St × String :=
     ({ s with objs := h :: s.objs.filter (fun x => x.obj != o), dcs := (o, nat dc) :: erase s.dcs o, addrs := (o, ad) :: erase s.addrs o }, "ok")
   | ["evadd", o] => match s.obj? (nat o) with
     | none => (s, "bad-op")
-    | some h => if h.invalid then (s, "crash:invalid-host") else answer s (s.v.addInitial env h) ""
+    | some h => if h.invalid then (s, "crash:invalid-host") else
+      let (s1, v1, e) := addOrUpdateU s h
+      answer s1 (if env.filter e then v1 else v1.startPoolFill env e) ""
   | ["evaddu", o] => match s.obj? (nat o) with
     | none => (s, "bad-op")
     | some h => if h.invalid then (s, "crash:invalid-host") else
-      let (r, e) := s.v.ring.addOrUpdate h
-      let v1 := { s.v with ring := r }
-      if e.obj == h.obj then answer s v1 "" else
-      match lookup s.addrs e.obj, lookup s.addrs h.obj with
-      | some ae, some ah =>
-        let a' := ae.update ah
-        let s1 := { s with addrs := (e.obj, a') :: erase s.addrs e.obj }
-        answer s1 (v1.updateObj e.obj a'.nodeAddr a'.conn) ""
-      | _, _ => answer s v1 ""
+      let (s1, v1, _) := addOrUpdateU s h
+      answer s1 v1 ""
   | ["evrm", id] => match s.v.ring.getHost (nat id) with
     | none => answer s s.v ""
     | some h => answer s (s.v.removeHost env h) ""
